@@ -104,6 +104,7 @@ PROBES.update({
  'enum_odd': "from enum import Enum, Flag, auto\n\nclass Color(Enum):\n    RED = auto()\n    GREEN = (1, 2)\n    BLUE = 'b'\n    def describe(self) -> str:\n        return self.name\n    @property\n    def is_red(self) -> bool:\n        return self is Color.RED\n\nclass Perm(Flag):\n    R = 4\n    W = 2\n    RW = R | W\n",
  'async_and_generators': 'from typing import AsyncIterator, Iterator\n\nasync def agen(n: int) -> AsyncIterator[int]:\n    for i in range(n):\n        yield i\n\ndef gen(n: int) -> Iterator[int]:\n    yield from range(n)\n\nclass A:\n    async def m(self) -> None:\n        pass\n    def __aiter__(self):\n        return self\n    async def __anext__(self) -> int:\n        raise StopAsyncIteration\n',
  'numpydoc_default_is_call': 'class Tuned:\n    """A tuned thing.\n\n    Parameters\n    ----------\n    cv : object, default=model_selection.splitters.StratifiedShuffleKFold(n_splits=5)\n        The splitter.\n\n    Attributes\n    ----------\n    best_ : dict, default=collections_extra.ordered.DefaultOrderedMapping(list)\n        The best.\n    """\n\n    def __init__(self, cv=None) -> None:\n        self.best_ = {}\n',
+ 'float_defaults_out_of_range': 'def bounds(lower: float = -1e400, upper: float = 1e999, eps: float = 1e-07, big: float = 1e22, nan_=float("nan")) -> float:\n    return lower\n\nclass B:\n    top: float = 1e999\n    def m(self, x=1e999) -> None:\n        pass\n',
  'index_assignment_targets': "class A:\n    d = {}\n    d['k'] = 1\n    def __init__(self):\n        self.m = {}\n        self.m['a'] = 1\n        self.lst = [1]\n        self.lst[0] = 2\n        self.o = A\n        self.o.x = 3\n",
 })
 
